@@ -20,6 +20,8 @@ GROUPS = [
     for t0 in (0, 2) for t1 in (0, 2)
     # Cell -> RawCell with by-pointer references: out of memory in propositional reduction (pointer union); not claimed
     if nm == 'cell' or (t0, t1) == (2, 2)
+    # replace_cell(RawCell*, Cell*) (harness h_replace_raw_by_cell): the by-name groups fail under CBMC with
+    # counterexamples that pass natively (unexplained, cf. DESIGN.md 9.8); NOT claimed.
 ]
 TRUSTED_BASE = ['clang 14 AST', 'tools/cxx2c.py lowering', 'cbmc 6.11.0 (SAT) with its C library models (strcmp, strlen, memcpy, realloc)', 'the model assertions in harness/c16.c']
 ASSUMPTIONS = ['bounded: library size as stated', 'cell names in a library are unique', 'not covered: the other replace_cell overloads, top_level, get_dependencies, remap_tags, copies']
